@@ -229,7 +229,7 @@ def applyEvent (s : PSys) : Event → Except String PSys
     else .error "bump: node down or term not higher"
   | .campaign i =>
     let n := s.nodes i
-    if n.up ∧ n.vote = 0 ∧ n.role ≠ 2 ∧ 0 < i then
+    if n.up ∧ n.vote = 0 ∧ n.role ≠ 2 ∧ 0 < i ∧ 0 < n.term then
       -- the self-vote is a grant to oneself: it is counted by `win` only once released (= durable)
       ok { s with nodes := upd s.nodes i { n with vote := i, role := 1, outbox := n.outbox ++ [.voteReq n.term i (lastTerm n.log) n.log.length, .grant n.term i i] } }
     else .error "campaign: node down, already voted in this term, or leader"
@@ -373,7 +373,7 @@ def applyEvent (s : PSys) : Event → Except String PSys
     if n.term = 0 ∧ n.vote = 0 ∧ n.log = [] ∧ n.commit = 0 ∧ n.dterm = 0 ∧ n.dvote = 0 ∧ n.dlog = [] ∧
         n.dcommit = 0 ∧ n.outbox = [] ∧ n.pending = [] ∧ n.role = 0 ∧ i ≠ donor ∧
         0 < idx ∧ idx ≤ d.dcommit ∧ idx ≤ d.dlog.length then
-      let t := termAt d.dlog idx
+      let t := d.dterm
       ok { s with nodes := upd s.nodes i { n with up := true, term := t, dterm := t, log := d.dlog.take idx, dlog := d.dlog.take idx, commit := idx, dcommit := idx } }
     else .error "bootstrap: node is not fresh, or the prefix is not durably committed at the donor"
 
